@@ -177,7 +177,8 @@ func structured(codec string) (runtime.Producer, runtime.Consumer) {
 // byte-exact pairs for the text and byte-stream round trip: source kind > destination kind
 var exactPairs = map[string][]string{
 	"bytestream": {"string>*string", "[]byte>*[]byte", "string>*[]byte", "[]byte>*string", "encoding.BinaryMarshaler>encoding.BinaryUnmarshaler", "io.Reader>io.Writer", "io.WriterTo>io.ReaderFrom", "namedBytes>*namedString", "error>*any(string)"},
-	"text":       {"string>*string", "encoding.TextMarshaler>encoding.TextUnmarshaler", "fmt.Stringer>*namedString", "error>*string", "*string>*string"},
+	"text": {"string>*string", "encoding.TextMarshaler>encoding.TextUnmarshaler", "fmt.Stringer>*namedString", "error>*string", "*string>*string",
+		"TextMarshaler+Stringer>dual TextUnmarshaler", "*TextMarshaler+Stringer>dual TextUnmarshaler", "TextMarshaler+error>dual TextUnmarshaler"},
 }
 
 // runRoundTrip: produce into a scripted writer, feed exactly what the writer
@@ -204,6 +205,12 @@ func runRoundTrip(cs Case, content []byte, ch *choice.Chooser) verdict {
 		prod, sk = producerOf(pc)
 		cons, dk = consumerOf(pc)
 		s, d := findS(sk, parts[0]), findD(dk, parts[1])
+		if s == nil {
+			s = findS(rtOnlySrc, parts[0])
+		}
+		if d == nil {
+			d = findD(rtOnlyDst, parts[1])
+		}
 		if s == nil || d == nil {
 			return verdict{class: "harness", what: "unknown pair " + cs.Kind}
 		}
